@@ -86,7 +86,12 @@ Proof.
       * rewrite lists_mark_done. split; [cbn; rewrite <- L1; apply lists_note_cancel_m|].
         intros x Hx. rewrite reg_mark_done in Hx. cbn in Hx. apply filter_In in Hx as [Hx _].
         rewrite reg_note_cancel_m, R1 in Hx. exists x. auto.
-  - destruct (find_u e n) as [c|]; [|split; [reflexivity|apply reg_le_refl]].
+  - match goal with |- context [match ?X with None => cancel_unstarted _ _ _ | Some _ => _ end] => destruct X as [c|] end.
+    2:{ unfold cancel_unstarted. pose proof (lists_mark_done e m r) as LM. pose proof (reg_mark_done e m r) as RM.
+        destruct (mark_done e m r) as [e1 m1]. cbn [fst] in LM, RM.
+        destruct (mark_cancelled_raises (tk e1 m1) r); cbn [fst].
+        - split; [exact LM|apply reg_le_eq; exact RM].
+        - split; [now rewrite lists_note_cancel_m|apply reg_le_eq; now rewrite reg_note_cancel_m]. }
     destruct (c_complete c).
     + rewrite lists_mark_done. split; [reflexivity|]. apply reg_le_eq. now rewrite reg_mark_done.
     + destruct (mark_cancelled_raises (tk e m) r).
@@ -113,7 +118,9 @@ Qed.
 (* a UOD request never touches what the invariant reads *)
 Lemma cancel_request_uod_core e m r n : r_name r = CU n -> core (fst (cancel_request e m r)) = core e.
 Proof.
-  intros H. unfold cancel_request. rewrite H. destruct (find_u e n) as [c|]; [|reflexivity].
+  intros H. unfold cancel_request. rewrite H.
+  match goal with |- context [match ?X with None => cancel_unstarted _ _ _ | Some _ => _ end] => destruct X as [c|] end;
+    [|apply core_cancel_unstarted].
   destruct (c_complete c).
   - rewrite core_mark_done. reflexivity.
   - destruct (mark_cancelled_raises (tk e m) r); [reflexivity|]. rewrite core_mark_done. cbn. apply core_note_cancel_m.
